@@ -8,14 +8,18 @@ META = dict(
                 "of <= 3 entries over 399 hostile names ('..', '.', empty/absolute/trailing-slash components, NUL) x 17 "
                 "bodies (dir/file/symlink to absolute, relative-up, inside and outside-file targets/other type, mode and "
                 "mtime set or unset), plus every archive of <= 4 (thorough 5) entries over one chain of names r, r/a, r/a/a "
-                "(an entry replacing an earlier same-named entry of another type, then entries below it), into 6 initial targets (absent, pre-populated with symlinks/dirs/files, the target "
+                "(an entry replacing an earlier same-named entry of another type, then entries below it), plus every pair of "
+                "Extract calls on ONE Extractor value (first archive <= 4 entries incl. a file whose body is truncated, ending in "
+                "every error class; then the previous target's metadata is changed and <= 2 directories are extracted into "
+                "another target -- what survives in the Extractor between calls is part of the state), into 6 initial targets (absent, pre-populated with symlinks/dirs/files, the target "
                 "itself a symlink or a file); invariants Confined (nothing outside the target changes) and NoStrayTouch "
                 "(no system call ever touches an object elsewhere). A control configuration with the as-built deferred "
                 "directory metadata must find the escape. TLC-generated archives are written as real tar streams and "
                 "extracted by the real Extractor into a scratch tree realised from the model's initial file system; the "
                 "whole tree is snapshotted each time the extractor requests the next header and at return, and compared "
                 "with the model's predicted file system and error class; the outside part is also compared with its "
-                "initial state directly."),
+                "initial state directly; for a reused Extractor every call is checked with respect to its own target and "
+                "the tree at its start."),
     level_note=("Trusted: the kernel/tmpfs behaving as POSIX, archive/tar, the harness projection (tar writer, lstat snapshot, "
                 "mtime classes). Linux only; names are single characters (string prefix = component prefix); no concurrent "
                 "modification of the tree during extraction."),
@@ -33,7 +37,9 @@ def run(ctx):
     ctx.cov["rule"] = ("G: every archive accepted entry by entry by the ideal model within the generator bounds (<=2 entries: 20 "
                        "names incl. one per refusal class x 17 bodies x 6 initial targets; <=3 entries: 6 names x 9 bodies x 2 "
                        "targets; replacement chains: <=4 entries over the name chain r, r/a, r/a/a x 9 bodies x 2 targets (same-named "
-                       "entries of different types followed by entries below them); thorough: larger) plus random archives <=10 "
+                       "entries of different types followed by entries below them); reuse: two Extract calls on one Extractor value, first archive <=4 entries over r, r/a, r/b, r/a/a + "
+                       "one name per refusal class x 6 bodies incl. a truncated file body, second archive <=2 directories with metadata into "
+                       "another target after the first target's metadata was changed; thorough: larger) plus random archives <=10 "
                        "entries; an entry refused on its name is offered "
                        "with the 3 most harmful bodies. non-trivial = at least 2 headers consumed and the file system changed "
                        "at least twice")
@@ -59,10 +65,26 @@ def run(ctx):
             chain["err"] = e
     chainer = threading.Thread(target=gen_chain)
     chainer.start()
+    # one Extractor value used for two Extract calls (the first ending in every way, incl. a truncated body)
+    reuse = {}
+
+    def gen_reuse():
+        try:
+            reuse["behs"] = ctx.tlc_gen(S, "GenTarFS.tla", "GenTarFSReuse.cfg" if ctx.quick else "GenTarFSReuseBig.cfg",
+                                        timeout=6000, workers=4 if ctx.quick else 8)
+        except Exception as e:
+            reuse["err"] = e
+    reuser = threading.Thread(target=gen_reuse)
+    reuser.start()
     ctx.tlc_mc(S, "MCTarFS.tla", "MCTarFS.cfg" if ctx.quick else "MCTarFSBig.cfg", timeout=6000, coverage=not ctx.quick, deadlock=False)
     ctl = ctx.tlc_mc(S, "MCTarFS.tla", "MCTarFSAsBuilt.cfg", timeout=900, deadlock=False, expect_violation=True)
     if ctl["violated"] != "Confined":
         ctx.broken("non-vacuity control: the as-built deferred update should violate Confined in the model, got %s" % ctl["violated"])
+    if not ctx.quick:
+        ctl = ctx.tlc_mc(S, "MCTarFS.tla", "MCTarFSKeepDeferred.cfg", timeout=1800, deadlock=False, expect_violation=True)
+        if ctl["violated"] != "Confined":
+            ctx.broken("non-vacuity control: an Extractor that keeps its deferred updates across calls should violate Confined "
+                       "in the model, got %s" % ctl["violated"])
 
     sets = [("two", ctx.tlc_gen(S, "GenTarFS.tla", "GenTarFS.cfg", timeout=3000, workers=4)),
             ("three", ctx.tlc_gen(S, "GenTarFS.tla", "GenTarFS3.cfg" if ctx.quick else "GenTarFS3Big.cfg", timeout=6000,
@@ -71,10 +93,12 @@ def run(ctx):
     sets.append(("sim", ctx.tlc_gen(S, "GenTarFS.tla", "GenTarFSSim.cfg", simulate=nsim, depth=12 * 10 + 1, timeout=3000)))
     builder.join()
     chainer.join()
-    for d in (built, chain):
+    reuser.join()
+    for d in (built, chain, reuse):
         if "err" in d:
             raise d["err"]
     sets.insert(2, ("chain", chain["behs"]))
+    sets.insert(3, ("reuse", reuse["behs"]))
     binp = built["bin"]
 
     def nontrivial(b):
@@ -84,7 +108,8 @@ def run(ctx):
             ctx.broken("no behaviours in set " + name)
             return
         if name != "sim":     # TLC workers print in any order: make the numbering reproducible
-            behs.sort(key=lambda b: (len(b["entries"]), b["v"], json.dumps(b["entries"], sort_keys=True)))
+            behs.sort(key=lambda b: (len(b["entries"]), b["v"], json.dumps(b["entries"], sort_keys=True),
+                                     json.dumps(b.get("more", []), sort_keys=True)))
         if not replay(ctx, binp, name, behs, nontrivial):
             return
     ctx.cov["exhaustive"] = True
@@ -106,8 +131,9 @@ def replay(ctx, binp, name, behs, nontrivial):
     nconf = 0
     for r in bad:
         beh = behs[r["i"]]
-        arch = " ; ".join("%s %s%s mode=%o mtime=%s" % ("/".join(e["name"]), e["type"], ("->" + e["link"]) if e["link"] else "",
-                                                        e["mode"], e["t"]) for e in beh["entries"])
+        arch = " ; ".join("%s %s%s%s mode=%o mtime=%s" % ("/".join(e["name"]), e["type"], ("->" + e["link"]) if e["link"] else "",
+                                                          " TRUNCATED" if e.get("c") == "trunc" else "", e["mode"], e["t"])
+                          for e in beh["entries"])
         what = "%s#%d target=%s archive=[%s]: %s" % (name, r["i"], beh["v"], arch, r.get("what"))
         if r.get("harness"):
             ctx.broken(what)
